@@ -225,7 +225,8 @@ class C05(E1Prop):
             "unchanged (values and dump bytes) after a copying conversion, converting back reproduces the original dump byte-for-byte; ASan live. "
             "non-trivial = the two compositions differ and the extents are not an equal power-of-two cube; distinct by (pair, extents, seed, ctor)")
     min_eval = 3000
-    assumptions = ("coordinate scalar size_t (what the benchmarks convert between); CUDA device storage is not exercised (no CUDA toolchain)",)
+    assumptions = ("coordinate scalar size_t (what the benchmarks convert between)",
+                   "host array -> CUDA device array is exercised on the host under a shim of the CUDA runtime (device memory = host memory): conversion logic only, no claim about device execution")
     level_text = ("Generated-input search over all ordered layout pairs with complete enumeration of small extent vectors, value-for-value and byte-for-byte "
                   "round-trip oracles, under ASan.")
 
@@ -235,7 +236,9 @@ class C05(E1Prop):
                 H("prop_C05_n2", "prop_C05.cpp", shards=8, defines=["VF_GROUP=1"], flags=b),
                 H("prop_C05_n2_nobmi2", "prop_C05.cpp", shards=8, defines=["VF_GROUP=1"]),
                 H("prop_C05_n4", "prop_C05.cpp", shards=9, defines=["VF_GROUP=2"], flags=b),
-                H("prop_C05_stacks", "prop_C05.cpp", shards=9, defines=["VF_GROUP=3"], flags=b)]
+                H("prop_C05_stacks", "prop_C05.cpp", shards=9, defines=["VF_GROUP=3"], flags=b),
+                H("prop_C05_cuda_shim", "prop_C05.cpp", shards=4, defines=["VF_GROUP=4"], flags=b,
+                  extra_inc=[core.REPO + "/lib/cuda", core.HARNESS + "/cuda_shim"])]
 
 
 @prop("C12")
